@@ -60,7 +60,7 @@ theorem D.keepLike {fs fs' : Fs} {l l' : Live} {dur : List (Nat × Bytes)} {dent
 
 /-- open: the durable relation after a successful `OpenOptions::open` of `[n]` -/
 theorem D.open {fs fs' : Fs} {l l' : Live} {dur : List (Nat × Bytes)} {dents : List ((Nat × Nat) × Ent)}
-    (h : D fs l dur dents) (hR : FsRel fs l) (n : Nat) (fl : Flags) (id : Nat)
+    (h : D fs l dur dents) (hR : FsRelX fs l) (n : Nat) (fl : Flags) (id : Nat)
     (he : openFs fs [n] fl = .ok fs') (hs : sOpen l [n] fl = .ok (l', id)) : D fs' l' dur dents := by
   unfold openFs at he
   unfold sOpen at hs
@@ -72,7 +72,7 @@ theorem D.open {fs fs' : Fs} {l l' : Live} {dur : List (Nat × Bytes)} {dents : 
     | false => simp [openCreate, hfe, hc] at he
     | true =>
       cases hpar : sParentIsDir l [n] with
-      | false => simp [openCreate, hfe, hc, parentExists_eq hR, hpar] at he
+      | false => simp [openCreate, hfe, hc, parentExists_eqX hR, hpar] at he
       | true =>
         have hl' : l' = createL l [n] := by
           simp [hc, hpar] at hs
@@ -82,13 +82,13 @@ theorem D.open {fs fs' : Fs} {l l' : Live} {dur : List (Nat × Bytes)} {dents : 
         cases htw : (fl.t && fl.w) with
         | true =>
           have he' : fs' = push (push fs (.createFile [n])) (.setLen [n] 0) := by
-            simp [openCreate, hfe, hc, parentExists_eq hR, hpar, htw] at he
+            simp [openCreate, hfe, hc, parentExists_eqX hR, hpar, htw] at he
             rw [← he]; simp [push]
           subst he'
           exact hcr.keepLike (KeepLike.push_setLen _ _ _) rfl rfl
         | false =>
           have he' : fs' = push fs (.createFile [n]) := by
-            simp [openCreate, hfe, hc, parentExists_eq hR, hpar, htw] at he
+            simp [openCreate, hfe, hc, parentExists_eqX hR, hpar, htw] at he
             rw [← he]; rfl
           subst he'
           exact hcr
@@ -172,7 +172,7 @@ theorem dsim_step {st : St} {sp : Spec} (hR : R st sp.l) (hD : D st.fs sp.l sp.d
     | ok fs' =>
       obtain ⟨l', id, hso, _⟩ := open_ok h0 [n] fl hf' fs' hres
       simp only [hso]
-      have := hD0.open h0 n fl id hres hso
+      have := hD0.open h0.toX n fl id hres hso
       exact this.keepLike (KeepLike.refl _) rfl rfl
   | close slot =>
     simp only [step, sStep, lStep, dStep]
@@ -245,7 +245,7 @@ theorem dsim_step {st : St} {sp : Spec} (hR : R st sp.l) (hD : D st.fs sp.l sp.d
         rw [hn] at hs
         have hent := hr.ent
         rw [hn] at hent
-        exact hD.syncFile hR.fs hent hs
+        exact hD.syncFile hR.fs.toX hent hs
   | syncData slot =>
     simp only [step, sStep, lStep, dStep]
     rcases hR.slot slot with ⟨h1, h2⟩ | ⟨hd, sh, h1, h2, hr⟩
@@ -259,7 +259,7 @@ theorem dsim_step {st : St} {sp : Spec} (hR : R st sp.l) (hD : D st.fs sp.l sp.d
         rw [hn] at hs
         have hent := hr.ent
         rw [hn] at hent
-        exact hD.syncFile hR.fs hent hs
+        exact hD.syncFile hR.fs.toX hent hs
   | hmeta slot =>
     simp only [step, sStep, lStep, dStep]
     rcases hR.slot slot with ⟨h1, h2⟩ | ⟨hd, sh, h1, h2, hr⟩
@@ -277,7 +277,7 @@ theorem dsim_step {st : St} {sp : Spec} (hR : R st sp.l) (hD : D st.fs sp.l sp.d
       obtain ⟨e1, e2⟩ := sSyncDir_root sp.l sp hD.flat hD.keys0
       simp only [ofExcept]
       rw [e1, e2]
-      exact hD.syncDirRoot hR.fs hs
+      exact hD.syncDirRoot hR.fs.toX hs
   | stat p =>
     simp only [step, sStep, lStep, dStep]
     have e1 : (if fileExists st.fs p = true then (st, Obs.file (fileLen st.fs p))
@@ -322,7 +322,7 @@ theorem dsim_step {st : St} {sp : Spec} (hR : R st sp.l) (hD : D st.fs sp.l sp.d
         rw [entAt_congr (sWrite_ents _ _ _ _)]; exact hok.ent
       simp only [hent', Bool.false_eq_true, if_false]
       rw [wlog_dur, wlog_dents]
-      have hD1 := hD.open hR.fs n _ id hres hso
+      have hD1 := hD.open hR.fs.toX n _ id hres hso
       exact hD1.keepLike (KeepLike.writeFs _ _ _ _) (sWrite_ents _ _ _ _) (sWrite_next _ _ _ _)
   | mkdir p => simp [opFlat] at hfl
   | mkdirAll p => simp [fragOk] at hf
